@@ -504,7 +504,11 @@ def alias_same_object(ctx):
         thunks = [("join(P,P).2d", lambda: geometer.join(P2, P2)), ("meet(l,l).2d", lambda: geometer.meet(L2, L2)), ("l.meet(l).2d", lambda: L2.meet(L2)),
                   ("join(P,P).3d", lambda: geometer.join(P3, P3)), ("join(P,P,R).3d", lambda: geometer.join(P3, P3, geometer.Point(r))),
                   ("meet(E,E).3d", lambda: geometer.meet(E3, E3)), ("join(L,L).3d", lambda: geometer.join(L3, L3)), ("meet(L,L).3d", lambda: geometer.meet(L3, L3)),
-                  ("P.join(P).3d", lambda: P3.join(P3))]
+                  ("P.join(P).3d", lambda: P3.join(P3)),
+                  # the same object at NON-adjacent positions
+                  ("join(P,R,P).3d", lambda: geometer.join(P3, geometer.Point(r), P3)), ("P.join(R,P).3d", lambda: P3.join(geometer.Point(r), P3)),
+                  ("meet(E,F,E).3d", lambda: geometer.meet(E3, geometer.Plane(r), E3)), ("Plane(P,R,P)", lambda: geometer.Plane(P3, geometer.Point(r), P3)),
+                  ("Line(P,P).2d", lambda: geometer.Line(P2, P2))]
         for name, th in thunks:
             try:
                 th()
